@@ -364,6 +364,12 @@ func c23shapes() []c23shape {
 		{"t1.win", c23gT1, false, data(t1, full, func(p *c23pk, f *c23flow) { p.win = 0x1000 })},
 		{"t1.ackno", c23gT1, false, data(t1, full, func(p *c23pk, f *c23flow) { p.ack = 9999 })},
 		{"t1.trail", c23gT1, false, data(t1, full, func(p *c23pk, f *c23flow) { p.trailing = 3 })},
+		// DF differs from the flow's other packets while sequence number and IPv4 ID continue the run: the kernel would stamp
+		// the whole superpacket with the first packet's DF and consecutive IDs, so such a packet must not join it
+		{"t1.nodf", c23gT1, false, data(t1, full, func(p *c23pk, f *c23flow) { p.df = false })},
+		{"t3.df", c23gT3, false, data(t3, full, func(p *c23pk, f *c23flow) { p.df = true })},
+		{"u1.nodf", c23gU1, false, data(u1, full, func(p *c23pk, f *c23flow) { p.df = false })},
+		{"u2.df", c23gU2, false, data(u2, full, func(p *c23pk, f *c23flow) { p.df = true })},
 		{"t2.data", c23gT2, true, data(t2, full, nil)},
 		{"t2.data+psh", c23gT2, false, data(t2, full, fl(c23ack|c23psh))},
 		{"t2.short", c23gT2, false, data(t2, short, nil)},
